@@ -15,7 +15,7 @@
     conforms to the declared argument types; when validation accepted the document, the
     observation equals the reference coercion (error <-> nothing called). *)
 From Coq Require Import List NArith ZArith Bool String.
-From ApiFu Require Import Base.Sexp Val.Values Val.CoerceModel Val.CoerceSpec.
+From ApiFu Require Import Base.Sexp Val.Values Val.CoerceModel Val.CoerceSpec Val.CoerceReasons.
 Import ListNotations.
 Open Scope string_scope.
 Open Scope list_scope.
@@ -360,7 +360,14 @@ Section Case.
                       match o_calls o with
                       | [] => if site_field && negb (match o_exec o with VReject => true | _ => false end)
                               then Some (v_oracle_fail "no-error-although-no-coercion-exists" [])
-                              else None
+                              else
+                                (* static_dynamic_agree, on the reference side: after validation a
+                                   coercion can only be missing for one of the run-time reasons *)
+                                match ref_vv with
+                                | Some v => if null_variable v args || absent_item_variable v args || refusing_hook E then None
+                                            else Some (v_oracle_fail "runtime-error-without-runtime-reason" [])
+                                | None => None
+                                end
                       | m :: _ => Some (v_oracle_fail differs_key [])
                       end
                   | Some m =>
@@ -429,10 +436,14 @@ Section Case.
     (if st then match vv with
                 | Ok v => match am with
                           | Ok _ => ["called"]
-                          | Err => ["argument-error"]
+                          | Err => ["argument-error"] ++
+                                   (if null_variable v args then ["reason-null-variable"] else []) ++
+                                   (if absent_item_variable v args then ["reason-absent-item-variable"] else []) ++
+                                   (if refusing_hook E then ["reason-hook-in-schema"] else [])
                           | Panic => ["panic"]
                           end
-                | Err => ["variable-error"]
+                | Err => ["variable-error"] ++
+                         (if bad_variable_value all_fixed E dt defs raw then ["reason-bad-variable-value"] else ["reason-hook-on-default"])
                 | Panic => ["panic"]
                 end else []) ++
     (if top_var then ["variable"] else []) ++ (if nested then ["variable-nested"] else []) ++
@@ -490,7 +501,7 @@ Definition check (c : sexp) : sexp :=
                     | None =>
                         match compare site_field o st vv am with
                         | Some v => v
-                        | None => v_ok (classes site_field argdefs defs args raw o st vv am ref_am)
+                        | None => v_ok (classes E T site_field argdefs defs args raw o st vv am ref_am)
                         end
                     end
                 end
